@@ -46,3 +46,15 @@ OBLIG_BY_PROP = {"C03": ["QuillModel.Obligations.BackendA_C03", "QuillModel.Obli
 # w2_prog: exactly once as one statement over the whole trace (Props/C03Trace.lean)
 THEOREMS["C03"] += ["Backend.C03_exactly_once_trace", "Backend.C03_once_iff", "Backend.PA.PW.run"]
 MODULES["C03"] += ["QuillModel.Props.C03Trace"]
+# lift round (w2_lifts): every sink fault reported exactly once over whole runs (Props/C10Faults.lean; balance skeleton
+# Backend/LiftBal.lean on the PC skeleton, notification texts Backend/LiftNote.lean)
+THEOREMS["C10"] += ["Backend.C10_write_faults_reported_once", "Backend.C10_write_faults_reported_once_from",
+                    "Backend.C10_flush_faults_reported_once", "Backend.C10_flush_faults_reported_once_from",
+                    "Backend.PC.bal_runOps", "Backend.PC.BalInv.closed"]
+MODULES["C10"] += ["QuillModel.Props.C10Faults"]
+# lift round (w2_lifts): the ghost counter `reported` tied to the counts printed in the notify events of the log
+# (Props/C08Log.lean; parseCount / parseCount_reportStr in Backend/LiftNote.lean)
+THEOREMS["C08"] += ["Backend.C08_reported_is_notified", "Backend.C08_reported_is_notified_from",
+                    "Backend.C08_accounting_on_log", "Backend.C08_dropped_equals_notified_plus_pending",
+                    "Backend.PC.parseCount_reportStr", "Backend.PC.bal_runOps"]
+MODULES["C08"] += ["QuillModel.Props.C08Log"]
